@@ -252,6 +252,24 @@ func (c *Ctx) connLoop() *ssa.Function {
 			return g
 		}
 	}
+	// the `go` may sit in a helper of the accept loop (start-the-connection helper)
+	for _, ci := range flow.CallInstrs(serve) {
+		if _, ok := ci.(*ssa.Call); !ok {
+			continue
+		}
+		h := flow.StaticCallee(ci)
+		if h == nil || h.Blocks == nil || !c.P.IsLibrary(h) {
+			continue
+		}
+		for _, cj := range flow.CallInstrs(h) {
+			if _, ok := cj.(*ssa.Go); !ok {
+				continue
+			}
+			if g := flow.StaticCallee(cj); g != nil && c.reachesFunc(g, rm, map[*ssa.Function]bool{}) {
+				return g
+			}
+		}
+	}
 	// fallback: a synchronous call (reported by the rules that require `go`)
 	for _, ci := range flow.CallInstrs(serve) {
 		if _, ok := ci.(*ssa.Call); !ok {
@@ -262,6 +280,75 @@ func (c *Ctx) connLoop() *ssa.Function {
 		}
 	}
 	return nil
+}
+
+// connReadLoop: the function that holds the per-connection read loop — the goroutine's entry function itself,
+// or (when the loop was extracted) the library function it plain-calls, at most two levels down, that contains
+// a loop around a call reaching diam.ReadMessage. Returns that function and the call in entry leading to it.
+func (c *Ctx) connReadLoop(entry *ssa.Function) (*ssa.Function, ssa.CallInstruction) {
+	rm := c.P.Func("diam", "ReadMessage")
+	if entry == nil || rm == nil {
+		return entry, nil
+	}
+	hasLoop := func(f *ssa.Function) bool {
+		loops := flow.Loops(f)
+		if len(loops) == 0 {
+			return false
+		}
+		for _, ci := range flow.CallInstrs(f) {
+			if _, ok := ci.(*ssa.Call); !ok {
+				continue
+			}
+			g := flow.StaticCallee(ci)
+			if g == nil || !(g == rm || c.reachesFunc(g, rm, map[*ssa.Function]bool{})) {
+				continue
+			}
+			if flow.InnermostLoop(loops, ci) != nil {
+				return true
+			}
+		}
+		return false
+	}
+	if hasLoop(entry) {
+		return entry, nil
+	}
+	var find func(f *ssa.Function, depth int) *ssa.Function
+	find = func(f *ssa.Function, depth int) *ssa.Function {
+		for _, ci := range flow.CallInstrs(f) {
+			if _, ok := ci.(*ssa.Call); !ok {
+				continue
+			}
+			g := flow.StaticCallee(ci)
+			if g == nil || g.Blocks == nil || !c.P.IsLibrary(g) || g == rm {
+				continue
+			}
+			if hasLoop(g) {
+				return g
+			}
+			if depth < 1 {
+				if h := find(g, depth+1); h != nil {
+					return h
+				}
+			}
+		}
+		return nil
+	}
+	for _, ci := range flow.CallInstrs(entry) {
+		if _, ok := ci.(*ssa.Call); !ok {
+			continue
+		}
+		g := flow.StaticCallee(ci)
+		if g == nil || g.Blocks == nil || !c.P.IsLibrary(g) || g == rm {
+			continue
+		}
+		if hasLoop(g) {
+			return g, ci
+		}
+		if h := find(g, 1); h != nil {
+			return h, ci
+		}
+	}
+	return entry, nil
 }
 
 func sortedFuncNames(m map[*ssa.Function]bool) []string {
@@ -452,6 +539,10 @@ func (c *Ctx) heldOnEntry(f *ssa.Function) []string { return c.heldOnEntryIn(f, 
 
 // heldOnEntryIn restricts the call sites considered to callers in the given set (nil = all).
 func (c *Ctx) heldOnEntryIn(f *ssa.Function, callers map[*ssa.Function]bool) []string {
+	return c.heldOnEntryDepth(f, callers, 0)
+}
+
+func (c *Ctx) heldOnEntryDepth(f *ssa.Function, callers map[*ssa.Function]bool, depth int) []string {
 	if f.Object() != nil && f.Object().Exported() {
 		return nil
 	}
@@ -474,6 +565,12 @@ func (c *Ctx) heldOnEntryIn(f *ssa.Function, callers map[*ssa.Function]bool) []s
 				if op.acquire && op.exclusive && !op.deferred && mustHeldAt(caller, ci, op.path, true) {
 					parts := strings.Split(op.path, ".")
 					here[parts[len(parts)-1]] = true
+				}
+			}
+			// locks the caller itself is entered with (a helper of a helper)
+			if depth < 2 && caller != f {
+				for _, k := range c.heldOnEntryDepth(caller, callers, depth+1) {
+					here[k] = true
 				}
 			}
 			if common == nil {
